@@ -333,7 +333,14 @@ def state_before_raise(prog, fi, state_attrs=None):
                 while isinstance(base, ast.Subscript):
                     base = base.value
                 if is_self_attr(base) and (state_attrs is None or base.attr in state_attrs):
-                    stores.append((st, base.attr))
+                    # lazy initialisation (`if self.x is None: self.x = <default>`) is idempotent: a refused call that got as far
+                    # leaves nothing behind that the next call would not create anyway
+                    par = getattr(st, "_parent", None)
+                    lazy = isinstance(par, ast.If) and isinstance(par.test, ast.Compare) and len(par.test.ops) == 1 and \
+                        isinstance(par.test.ops[0], ast.Is) and is_self_attr(par.test.left, base.attr) and \
+                        isinstance(par.test.comparators[0], ast.Constant) and par.test.comparators[0].value is None
+                    if not lazy:
+                        stores.append((st, base.attr))
     out = []
     if not stores:
         return out
